@@ -2165,32 +2165,43 @@ def _makers(prog, f, which, depth):
 
 
 def _resolve_local(prog, f, x, which, depth):
-    """role at element x inside f from the makers of f alone (None if no maker dominates x)"""
+    """role at element x inside f from the makers of f alone: reaching definitions over the flow graph.
+    None if the name may still be the caller's on some path; one role; or ('ambiguous', role, role...) if several reach."""
     makers = _makers(prog, f, which, depth)
-    doms = [(m, r) for m, r in makers if f.dominates(m, x)]
-    if not doms:
+    if not makers:
         return None
-    best, brole = doms[0]
-    for m, r in doms[1:]:
-        if f.dominates(best, m):
-            best, brole = m, r
-    bb, ib = f.pos[best.id]
-    bc, ic = f.pos[x.id]
+    by_block = {}
     for m, r in makers:
-        if m is best or r == brole:
-            continue
         bm, im = f.pos[m.id]
-        if bb == bc:
-            between = bm == bb and ib < im < ic
-        elif bm == bb:
-            between = im > ib
-        elif bm == bc:
-            between = im < ic
-        else:
-            between = f.can_reach(bb, bm) and f.can_reach(bm, bc, avoid={bb}) and not f.dominates(m, best)
-        if between:
-            return ('ambiguous', brole, r)
-    return brole
+        by_block.setdefault(bm, []).append((im, r))
+    for v in by_block.values():
+        v.sort()
+    bx, ix = f.pos[x.id]
+    IN = {f.entry: frozenset(['<caller>'])}
+    work = [f.entry]
+    while work:
+        b = work.pop()
+        st = IN[b]
+        if b in by_block:
+            st = frozenset([by_block[b][-1][1]])
+        for sc in f.blocks[b].succs:
+            if sc is None:
+                continue
+            new = IN.get(sc, frozenset()) | st
+            if new != IN.get(sc):
+                IN[sc] = new
+                work.append(sc)
+    if bx not in IN:
+        return None
+    st = IN[bx]
+    for im, r in by_block.get(bx, []):
+        if im < ix:
+            st = frozenset([r])
+    if '<caller>' in st:
+        return None
+    if len(st) == 1:
+        return next(iter(st))
+    return ('ambiguous',) + tuple(sorted(map(str, st)))
 
 
 def static_role(fn, call, argx, prog=None, depth=0):
@@ -2290,23 +2301,33 @@ def effect_sites(db):
                 raise AnalysisBroken('%s: cannot resolve which queue file %s(%s) names in %s' % (c.where, c.callee, c.args[idx].src(), fn.name))
             if isinstance(role, tuple) and role[0] == 'lit':
                 continue       # lock/..., fixed non-queue names
+            path_dependent = role == 'deferred' or (isinstance(role, tuple) and role[0] == 'ambiguous')
+            if path_dependent and roots_of(fn.name) and roots_of(fn.name) <= {'todo_do', 'messdone', 'injectbounce', 'job_close'}:
+                # which file it is depends on the way to the call (a loop over the channel files and info, a helper that names
+                # different files): decided path-sensitively by the typestate runs of these roots (their own who-may sites)
+                n += 1
+                continue
             if role == 'deferred' or (isinstance(role, tuple) and role[0] == 'ambiguous' and 'deferred' in role):
                 # decided path-sensitively by the typestate runs of these roots (their own who-may sites)
                 if roots_of(fn.name) and roots_of(fn.name) <= {'todo_do', 'messdone', 'injectbounce', 'job_close'}:
                     n += 1
                     continue
                 raise AnalysisBroken('%s: the file %s(%s) names in %s depends on the path through a helper' % (c.where, c.callee, c.args[idx].src(), fn.name))
-            if isinstance(role, tuple) and role[0] == 'ambiguous':
-                raise AnalysisBroken('%s: ambiguous file role %s for %s in %s' % (c.where, role, c.callee, fn.name))
+            # one call site may act on different files on different ways to it (a loop over the channel files and info): each counts
+            role_set = list(role[1:]) if isinstance(role, tuple) and role[0] == 'ambiguous' else [role]
             n += 1
-            if role not in PROTECTED:
-                continue
-            rs = roots_of(fn.name)
-            for root in (rs or {fn.name}):
-                key = (root, c.callee, role)
-                out['effect:%s:%s:%s' % key] = (key in SEND_TABLE, c.where,
-                                                '%s() (reached from %s) %ss a file with role %s: not in the instance table (mess/, intd/, todo/ are removed only by qmail-clean)' %
-                                                (fn.name, root, c.callee, role), [])
+            for role in role_set:
+                if role not in PROTECTED:
+                    continue
+                rs = roots_of(fn.name)
+                for root in (rs or {fn.name}):
+                    key = (root, c.callee, role)
+                    prev = out.get('effect:%s:%s:%s' % key)
+                    if prev is not None and not prev[0]:
+                        continue
+                    out['effect:%s:%s:%s' % key] = (key in SEND_TABLE, c.where,
+                                                    '%s() (reached from %s) %ss a file with role %s: not in the instance table (mess/, intd/, todo/ are removed only by qmail-clean)' %
+                                                    (fn.name, root, c.callee, role), [])
     if n < 9:
         raise AnalysisBroken('qmail-send.c: only %d effect sites resolved (confirmed minimum 9)' % n)
     # markdone writes exactly one byte "D" at pos
